@@ -1657,7 +1657,7 @@ theorem realCollect_realText (sg ip fp : List Byte) (ex : Option (List Byte × L
 /-- law L2 (shape of `%.15G` for a finite double): optional `-`, digits, optionally `.` and digits, optionally `E`, sign, digits -/
 def G15Shape (t : List Byte) : Prop :=
   ∃ sg ip fr ex, t = sg ++ (ip ++ (fr ++ exText 69 ex)) ∧ (sg = [] ∨ sg = [45]) ∧ ip ≠ [] ∧ ip.all isDigit = true ∧
-    (fr = [] ∨ ∃ fp, fr = 46 :: fp ∧ fp ≠ [] ∧ fp.all isDigit = true) ∧ ExWF ex
+    (fr = [] ∨ ∃ fp, fr = 46 :: fp ∧ fp.all isDigit = true) ∧ ExWF ex
 
 theorem digits_not_mem (ds : List Byte) (h : ds.all isDigit = true) (b : Byte) (hb : isDigit b = false) : ds.contains b = false := by
   induction ds with
@@ -1765,7 +1765,7 @@ theorem writeReal_shape {F} (ops : FloatOps F) (v : F) (h : G15Shape (ops.fmtG15
   have hip69 : 69 ∉ ip := by simpa using digits_not_mem ip hip 69 (by decide)
   have hsg101 : 101 ∉ sg := by simpa using sign_not_mem sg hsg 101 (by decide) (by decide)
   have hip101 : 101 ∉ ip := by simpa using digits_not_mem ip hip 101 (by decide)
-  rcases hfr with rfl | ⟨fp, rfl, hfp1, hfp⟩
+  rcases hfr with rfl | ⟨fp, rfl, hfp⟩
   · -- no decimal point printed
     have hno : (ops.fmtG15 v).contains 46 = false := by
       rw [ht]; simp [List.contains_append, hsg46, hip46, hex46]
